@@ -21,11 +21,15 @@ type c02Cand struct {
 	// access token whose per-token mode is changed
 	AT     string `json:"-"`
 	ATMode string `json:"at_mode,omitempty"`
+	// IdleMs: the connection idles this long between handshake and tunnel-create;
+	// Late, if set, builds the cookie right after the handshake
+	IdleMs int           `json:"idle_ms,omitempty"`
+	Late   func() string `json:"-"`
 }
 
 func CheckC02(l *Lab, verifDir string) int {
 	rep := NewReport("C02", l.Tier, l.Seed, "exploration", verifDir)
-	rep.Rule = "candidate cookies are presented to the real binary (handshake + tunnel-create, status observed): tokens minted by the real /connect flow, every single-character substitution (all 63 alternatives at sampled positions; thorough: every position) and single-bit flip of their three segments, truncations, empty / junk strings, re-signing under other algorithms (none, HS384, HS512, RS256-as-HMAC) and other keys (empty, session key, JWKS modulus, near keys), header alg lying about the MAC, payloads re-signed under the right key with iss changed or missing and exp at -1h/-180s/-30s/+1h/missing, nbf in the future, nested and JSON-serialised JWS, duplicated segments; crossed with IdP conditions (valid, unknown token, revoked after a successful use, userinfo 500, connection reset). Oracle (own HMAC/base64/JSON code): accepted => semantically valid; fresh minted => accepted; rejected => cookie-access-denied status and the tunnel ends; minted exp <= receipt time + 300 s. non-trivial = the candidate reached the gateway and a tunnel-create response or end was observed; distinct = candidate class x mutation x verdict"
+	rep.Rule = "candidate cookies are presented to the real binary (handshake + tunnel-create, status observed): tokens minted by the real /connect flow, every single-character substitution (all 63 alternatives at sampled positions; thorough: every position) and single-bit flip of their three segments, truncations, empty / junk strings, re-signing under other algorithms (none, HS384, HS512, RS256-as-HMAC) and other keys (empty, session key, JWKS modulus, near keys), header alg lying about the MAC, payloads re-signed under the right key with iss changed or missing and exp at -1h/-180s/-30s/+1h/missing, nbf in the future, nested and JSON-serialised JWS, duplicated segments; the right-key rejects again after bursts of valid presentations (what one cookie check leaves behind must not complete the next cookie); a cookie that leaves the leeway while the connection idles between handshake and tunnel-create; crossed with IdP conditions (valid, unknown token, revoked after a successful use, userinfo 500, connection reset). Oracle (own HMAC/base64/JSON code): accepted => semantically valid; fresh minted => accepted; rejected => cookie-access-denied status and the tunnel ends; minted exp <= receipt time + 300 s. non-trivial = the candidate reached the gateway and a tunnel-create response or end was observed; distinct = candidate class x mutation x verdict"
 	rep.Assume("the harness knows the configured signing key; 'valid but unusual' candidates (no exp, nbf in the future, mutants decoding to identical bytes, -30 s inside the leeway) are recorded, not judged")
 	f, err := l.NewFixture(FixtureOpts{Kind: "openid"})
 	if err != nil {
@@ -188,6 +192,59 @@ func CheckC02(l *Lab, verifDir string) int {
 	close(jobs)
 	wg.Wait()
 
+	// ---- history: what an earlier (valid) cookie check leaves behind must not complete a later
+	// cookie: bursts of valid presentations, then the right-key candidates that lack or change a claim
+	var rejects []c02Cand
+	for _, c := range cands {
+		if strings.HasPrefix(c.Class, "right-key/") && c.Want == "reject" {
+			c.Name += " (after valid cookies)"
+			c.Class += "/after-valid"
+			rejects = append(rejects, c)
+		}
+	}
+	for round := 0; round < l.Pick(12, 150); round++ {
+		var hw sync.WaitGroup
+		for i := 0; i < 8; i++ {
+			hw.Add(1)
+			go func() {
+				defer hw.Done()
+				c02Present(rep, f, c02Cand{Name: "valid (history filler)", Class: "right-key/filler", Cookie: base, Want: "accept"})
+			}()
+		}
+		hw.Wait()
+		for i := 0; i < 2; i++ {
+			for _, c := range rejects {
+				hw.Add(1)
+				go func(c c02Cand) {
+					defer hw.Done()
+					c02Present(rep, f, c)
+				}(c)
+			}
+		}
+		hw.Wait()
+		if rep.ViolationCount() > 20 {
+			break
+		}
+	}
+	// ---- expiry is judged when the cookie is presented, not when the connection was made: the
+	// cookie is inside the one-minute leeway at the handshake and outside it (by >= 2 s) at tunnel-create
+	{
+		var hw sync.WaitGroup
+		for i := 0; i < l.Pick(4, 16); i++ {
+			hw.Add(1)
+			go func(i int) {
+				defer hw.Done()
+				c02Present(rep, f, c02Cand{Name: fmt.Sprintf("leaves the leeway while the connection idles %d", i), Class: "right-key/exp/idle-connection", Want: "reject", IdleMs: 5000 + 700*i,
+					Late: func() string {
+						m := claims()
+						m["exp"] = time.Now().Unix() - 57
+						return SignHS("HS256", "HS256", key, nil, m)
+					}})
+			}(i)
+		}
+		hw.Wait()
+	}
+
 	// ---- IdP conditions (sequential: they change the IdP)
 	for round := 0; round < l.Pick(3, 20); round++ {
 		br := NewBrowser(f.GW, "")
@@ -243,6 +300,13 @@ func c02Present(rep *Report, f *Fixture, c c02Cand) {
 		return
 	}
 	ck := c.Cookie
+	if c.Late != nil {
+		ck = c.Late()
+		c.Cookie = ck
+	}
+	if c.IdleMs > 0 {
+		time.Sleep(time.Duration(c.IdleMs) * time.Millisecond)
+	}
 	t.Send(TunnelCreate(0, &ck))
 	n, to := t.WaitPackets(2, W)
 	s := t.Snapshot()
